@@ -1077,6 +1077,18 @@ def correspond(ctx):
             x[2] = -(x[0] + x[1])
         r, e = _call(miller.reduce_indices, x)
         B.add('reduce_indices:rand', 'reduce ' + ' '.join(map(str, x)), r, e, _cmp_ints, x, nontrivial=any(x))
+    for _ in range(ctx.n(150, 1500)):           # huge indices (int64 range; the model's integers are unbounded)
+        g = rng.choice([1, 2, 3, 6, 7, 10, 10 ** 6, 2 ** 20, 3 ** 12])
+        hi = (2 ** 62) // g
+        x = [g * rng.randint(-hi, hi) if rng.random() < 0.8 else g * rng.randint(-9, 9) for _ in range(rng.choice([3, 4]))]
+        r, e = _call(miller.reduce_indices, np.array(x, dtype=np.int64))
+        B.add('reduce_indices:huge', 'reduce ' + ' '.join(map(str, x)), r, e, _cmp_ints, x, nontrivial=any(x))
+    for _ in range(ctx.n(100, 1000)):           # large integers / fractions through the 3 <-> 4 conversions
+        t = [rng.randint(-10 ** 12, 10 ** 12) / rng.choice([1, 1, 2, 4, 8]) for _ in range(3)]
+        r, e = _call(miller.vector3to4, t)
+        B.add('vector3to4:large', 'v34 ' + cm.frs(t), r, e, _cmp_close(1e-14, 1e-15), t)
+        r, e = _call(miller.plane3to4, np.array(t))
+        B.add('plane3to4:large', 'p34 ' + cm.frs(t), r, e, _cmp_exact, t)
     for bad in ([2, 4], [2, 4, 6, 8, 10]):
         r, e = _call(miller.reduce_indices, bad)
         B.add('reduce_indices:shape', 'reduce ' + ' '.join(map(str, bad)), r, e, _cmp_ints, bad, nontrivial=False)
@@ -1169,7 +1181,17 @@ def _corr_objects(ctx, B, rng, quads_ok, atol_s):
         B.add('object:position', 'bpos ' + cm.frs(sp), r, e, _cmp_close(1e-13, 1e-12), dict(info, relpos=sp))
         if rng.random() < 0.7:
             r, e = _call(lambda: box.reciprocal_vects)
-            B.add('object:reciprocal_vects', 'brecip', r, e, _cmp_recip, info)
+            B.add('object:reciprocal_vects', 'brecip', None if r is None else np.array(r, copy=True), e, _cmp_recip, info)
+            if e is None and rng.random() < 0.6:
+                # the caller rescales what it was handed (2 pi convention) in place, then asks again
+                try:
+                    r *= 2 * math.pi
+                    r[0, 0] = -77.0
+                except Exception:  # noqa
+                    pass
+                r2, e2 = _call(lambda: box.reciprocal_vects)
+                B.add('object:reciprocal_vects', 'brecip', None if r2 is None else np.array(r2, copy=True), e2, _cmp_recip,
+                      dict(info, note='second read after the caller overwrote the array returned by the first'))
 
     for it in range(ctx.n(70, 600)):
         cellseq = [_gen_cell(rng)]
